@@ -369,8 +369,9 @@ void fixComponentUnits(const ModelPtr &model, const ComponentPtr &component)
         auto variable = component->variable(v);
         if (variable->units() != nullptr) {
             // Find the units in the model and switch out.
+            // Link the copied variable to the copied model's units when that is what the variable's units are a copy of.
             auto units = model->units(variable->units()->name());
-            if (units != nullptr) {
+            if ((units != nullptr) && units->equals(variable->units())) {
                 variable->setUnits(units);
             }
         }
